@@ -57,6 +57,10 @@ def run(ctx):
         vlib.mc_check(ctx, "FaultProto", "FaultProto_deep_negF5.cfg", expect_violation="OkCommitIsComplete", timeout=300, workers=4)
     vlib.mc_check(ctx, "FaultProto", "FaultProto_negF40.cfg", expect_violation="DiskIsSomeCommit", timeout=120, workers=4)
     vlib.mc_check(ctx, "FaultProto", "FaultProto_negS21.cfg", expect_violation="NoStuckProducer", timeout=120, workers=4)
+    # an end_merge task queued before the updater was killed (failed save_metas, rollback, drop) must not collect from its
+    # registers: meta.json still names the sources with the newest delete file (finding F55, repaired)
+    vlib.mc_check(ctx, "KillGcProto", "KillGcProto.cfg", timeout=120, workers=2)
+    vlib.mc_check(ctx, "KillGcProto", "KillGcProto_negF55.cfg", expect_violation="DiskReadable", timeout=120, workers=2)
     vlib.mc_check(ctx, "StorageProto", "StorageProto_negF45.cfg", expect_violation="NoSpuriousFailure", timeout=120, workers=2)
     # a failed meta.json replacement at the storage level: active metas replaced before the durable write (seeded C11-s9)
     vlib.mc_check(ctx, "StorageProto", "StorageProto_negS11.cfg", expect_violation="NeverDeletesNeeded", timeout=300, workers=4)
